@@ -9,7 +9,7 @@ from .. import coqrun as C
 from .. import core, engprop as E, gen, hx, hxcorr
 from .. import indicators as X
 
-from hexital import Candle  # noqa: E402
+from hexital import Candle, Hexital  # noqa: E402
 
 ACCESSORS = ["str", "repr", "name", "settings", "has_reading", "reading", "prev_reading", "as_list",
              "reading_count", "reading_period", "candles_sum", "read_candle"]
@@ -157,6 +157,12 @@ def encode(row: Dict, form: str):
     if form == "dict":
         return {"open": row["open"], "high": row["high"], "low": row["low"], "close": row["close"],
                 "volume": row["volume"], "timestamp": ts}
+    if form == "dict_caps":      # the capitalised spelling the library also accepts (pandas / yfinance exports)
+        return {"Open": row["open"], "High": row["high"], "Low": row["low"], "Close": row["close"],
+                "Volume": row["volume"], "Timestamp": ts}
+    if form == "dict_extra":     # further keys the caller keeps on its rows are none of the library's business
+        return {"open": row["open"], "high": row["high"], "low": row["low"], "close": row["close"],
+                "volume": row["volume"], "timestamp": ts, "symbol": "XYZ", "Adj Close": row["close"]}
     if form == "list_ts_last":
         return [row["open"], row["high"], row["low"], row["close"], row["volume"], ts]
     if form == "list_ts_first":
@@ -202,6 +208,47 @@ def falsify_encodings(ctx, case: Dict) -> bool:
     if bad:
         ctx.fail({"mode": "encodings", **bad, "batch": batch}, f"{spec} form={form} batch={batch} tf={tf} n={len(rows)}: {bad}",
                  {"mode": "encodings", "case": case}, size=len(rows))
+        return True
+    return False
+
+
+def falsify_arguments(ctx, case: Dict) -> bool:
+    """Dictionaries the caller hands over as arguments (an Amorph's `args`, a dict-form member) are read,
+    not kept or altered: they are unchanged afterwards, and changing them later does not change an
+    indicator that was built from them."""
+    from hexital import indicators as I_
+    from hexital.analysis import movement
+    rows, length, other = case["rows"], case["length"], case["other"]
+    bad = None
+    try:
+        with core.time_limit(40):
+            fn = getattr(movement, case["f"])
+            args = {"indicator": "close", "length": length}
+            keep = copy.deepcopy(args)
+            if case["via"] == "amorph":
+                a = I_.Amorph(analysis=fn, args=args, round_value=4, name_suffix="x")
+                h = hx.hexital([], [a])
+            else:
+                member = {"analysis": case["f"], "args": args, "name_suffix": "x"}
+                keep_member = copy.deepcopy(member)
+                h = Hexital("hx", [], [member])
+            if args != keep or (case["via"] != "amorph" and member != keep_member):
+                bad = {"relation": "caller-arguments-mutated", "via": case["via"]}
+            else:
+                args["length"] = other          # the caller reuses its dictionary for something else
+                args["indicator"] = "open"
+                h.append(X.mk_rows(rows))
+                ref = I_.Amorph(analysis=fn, args={"indicator": "close", "length": length}, round_value=4, name_suffix="x",
+                                candles=X.mk_rows(rows))
+                ref.calculate()
+                got = list(h.indicators.values())[0].as_list()
+                if not E.same_value_list(got, ref.as_list()):
+                    bad = {"relation": "indicator-aliases-caller-arguments", "via": case["via"]}
+    except Exception as e:  # noqa
+        bad = {"relation": "raises", "exc": type(e).__name__, "via": case["via"]}
+    if bad:
+        ctx.fail({"mode": "arguments", **bad}, f"{case['f']} length={length}->{other} via={case['via']} n={len(rows)}: {bad}",
+                 {"mode": "arguments", "case": case}, size=len(rows))
         return True
     return False
 
@@ -339,7 +386,7 @@ def run(ctx: core.Ctx) -> int:
         for r in rows:
             r["inds"] = {}
         spec = X.gen_spec(rng, rng.choice(["SMA", "EMA", "OBV", "TR", "VWAP", "RSI"]), inputs=("close",))
-        form = rng.choice(["dict", "list_ts_last", "list_ts_first", "candle"])
+        form = rng.choice(["dict", "dict_caps", "dict_extra", "list_ts_last", "list_ts_first", "candle"])
         c = {"spec": spec, "rows": rows, "form": form, "batch": rng.random() < 0.5, "tf": rng.choice(["T5", "T15", "H1"])}
         ctx.count("eval_falsifier")
         falsify_encodings(ctx, c)
@@ -347,6 +394,16 @@ def run(ctx: core.Ctx) -> int:
         ctx.seen({"spec": spec, "form": form, "batch": c["batch"], "rows": rows}, True)
         if len(ctx.samples) < 4:
             ctx.sample({"mode": "encodings", "spec": spec, "form": form, "batch": c["batch"], "n": n})
+    for _ in range(ctx.n(40, 300)):
+        n = rng.randint(8, 30)
+        rows = X.gen_rows(rng, n, late=0)
+        for r in rows:
+            r["inds"] = {}
+        c = {"rows": rows, "f": rng.choice(["rising", "falling", "highest", "lowest", "mean_rising", "value_range"]),
+             "length": rng.choice([1, 2, 3]), "other": rng.choice([5, 6, 7]), "via": rng.choice(["amorph", "dict"])}
+        ctx.count("eval_falsifier")
+        falsify_arguments(ctx, c)
+        dist["arguments"] = dist.get("arguments", 0) + 1
     hc = hxcorr.HxCorr(ctx, "C19")
     for _ in range(ctx.n(80, 800)):
         c = gen_delivery_case(rng)
@@ -364,7 +421,7 @@ def run(ctx: core.Ctx) -> int:
 
 def replay(ctx: core.Ctx, rep: Dict) -> int:
     r = rep["replay"]
-    f = {"reads": falsify_reads, "hx-reads": falsify_hx_reads, "encodings": falsify_encodings,
+    f = {"reads": falsify_reads, "hx-reads": falsify_hx_reads, "encodings": falsify_encodings, "arguments": falsify_arguments,
          "delivery": falsify_delivery}[r["mode"]]
     failed = f(ctx, r["case"])
     print("REPRODUCED" if failed else "NOT-REPRODUCED")
